@@ -210,4 +210,10 @@ theorem C11_wiring :
 theorem C11_skeleton_SetValidators : Sso.Generated.skel_proxy_SetValidators =
     ["func{", "store:op.Validators", "return", "}", "return"] := by decide
 
+/-- Tie (T1), second wave: helpers, stores and second callers on this property's path (sso_UserGroups) — call/branch/store skeletons
+regenerated from the source on every run against the expectations frozen here. -/
+theorem C11_wiring2 :
+    Sso.Generated.skel_sso_UserGroups =
+      ["call:Add", "call:Add", "call:Join", "call:Add", "call:String", "call:Encode", "call:Sprintf", "call:newRequest", "if{", "return", "}", "call:Set", "call:Set", "call:Do", "if{", "return", "}", "call:ReadAll", "call:Close", "if{", "return", "}", "if{", "call:isProviderUnavailable", "if{", "return", "}", "call:String", "call:Errorf", "return", "}", "call:Unmarshal", "if{", "return", "}", "return"] := by decide
+
 end Sso.Validators
